@@ -52,15 +52,17 @@ CLAIMED = {
         "octets; digest octets and ciphertext are taken from the wire (C10, C11)",
     ),
     "C06": (
-        "proof (partial): a value TLV of any SNMP base/application type or exception marker, written in ANY admissible definite "
+        "proof: a value TLV of any SNMP base/application type or exception marker, written in ANY admissible definite "
         "length form (minimal, long form with 1..126 octets, non-minimal) anywhere in a datagram, is found by the index-based "
         "x690 mirror with exactly its content, dispatched to the registered class (generated registry, signedness included) and "
-        "decoded to the value the specification reader reads from the same octets; unsigned classes never negative; integer / OID "
-        "codec round trips for all integers and all OIDs of the domain; re-encoded TLVs read as the same content. Binding lists, "
-        "PDUs, scoped PDUs, USM blocks and messages are tied by correspondence (model tree vs x690 on all five forms) and by "
-        "re-encoding checks against the independent reader",
+        "decoded to the value the specification reader reads from the same octets; whole nested structures (binding lists, "
+        "bindings, PDUs with their four-TLV reader, message wrappers, header, USM block, scoped PDU) in every mix of length "
+        "forms decode to the tree of the same shape (C06_tree_decode, induction over the structure and the decode_raw loop); "
+        "unsigned classes never negative; integer / OID codec round trips for all integers and all OIDs of the domain; "
+        "re-encoded TLVs read as the same content. The mirror is tied to x690 / puresnmp by tree correspondence on all five "
+        "structures and by re-encoding checks against the independent reader",
         "domain: OID content starting with an octet < 120; unsigned application integers in proper non-negative encoding for "
-        "equality with the RFC value; the sequence / PDU level decode theorems are not yet proved (correspondence only)",
+        "equality with the RFC value; the theorems are about the Lean mirror of x690 (function by function), the tie is the correspondence",
     ),
     "C07": (
         "proof: id in the request = id validated for every operation and clock value; accepted => ids equal; mismatch => "
